@@ -51,8 +51,16 @@ def generate(prop, seed, tier):
         G.add_unproductive_cycle(spec, g)
     if g.random() < 0.3:
         G.constant_factors(spec, g)
+    if g.random() < 0.25:
+        G.add_neq_terminal(spec, g, 'small')
     if g.random() < 0.1:
         spec = G.ring_chord_spec(g, 'small')
+    tight = False
+    if g.random() < 0.08:
+        # several independent recursive components; the iteration budget is generous for each (reference step count + 10)
+        # but not for all of them together
+        spec = G.multi_scc_spec(g)
+        tight = True
     cfgs = []
     for _ in range(g.randrange(6, 10)):
         sem = g.choice(['real', 'real', 'real', 'log', 'log', 'viterbi', 'bool'])
@@ -61,13 +69,15 @@ def generate(prop, seed, tier):
                      'grad': sem in ('real', 'log') and g.random() < 0.6,
                      'linalg_fail': g.choice([None, None, None, ['all'], [1], [2]]) if sem == 'real' else None,
                      'block_bytes': g.choice([None, None, None, 256, 8]), 'reduce_skip': g.random() < 0.2,
-                     'implicit_dtype': g.random() < 0.3})
+                     'implicit_dtype': g.random() < 0.3,
+                     # history: an earlier fixed-point query on the same FGG object under doubled weights, halved in place afterwards
+                     'prequery': g.random() < 0.15})
     cli = None
     if g.random() < (0.03 if tier == 'quick' else 0.08):
         cli = {'method': g.choice(['fixed-point', 'newton', 'linear']), 'j': False, 'double': g.random() < 0.7, 'grad_all': g.random() < 0.6,
                'tol': g.choice([1e-6, 1e-9]), 'kmax': g.choice([1000, 5000])}
     return {'engine': 'options', 'prop': prop, 'seed': seed, 'spec': spec, 'cfgs': cfgs, 'cot_seed': g.randrange(1 << 30),
-            'pres_seed': g.randrange(1 << 30), 'cli': cli}
+            'pres_seed': g.randrange(1 << 30), 'cli': cli, 'tight_budget': tight}
 
 
 def reducers(case):
@@ -77,7 +87,7 @@ def reducers(case):
         yield c
     yield from list_reductions(case, ['cfgs'], min_len=1 if not case.get('cli') else 0)
     for ci, cf in enumerate(case['cfgs']):
-        for k, v in (('linalg_fail', None), ('block_bytes', None), ('reduce_skip', False), ('grad', False), ('j_precompute', False)):
+        for k, v in (('linalg_fail', None), ('block_bytes', None), ('reduce_skip', False), ('grad', False), ('j_precompute', False), ('prequery', False)):
             if cf.get(k):
                 c = copy.deepcopy(case)
                 c['cfgs'][ci][k] = v
@@ -119,9 +129,26 @@ def run_cfg(F, case, cfg, cot):
         pres = build.random_presentation(spec, Stream(case['pres_seed'], 'pres'), allow_rename=False, allow_domperm=False, via=('api',))
         B = build.build(spec, pres, interp=True, weights_transform=lift(cfg['semiring']), dtype=dtype, requires_grad=bool(cfg.get('grad')))
         f32 = cfg['dtype'] == 'float32'
+        if cfg.get('prequery') and cfg['semiring'] != 'bool' and not any(t.get('pattern') is not None for t in spec['terms'].values()):
+            import math as _m
+            sh = _m.log(2.0)
+            for f_ in B.fgg.factors.values():
+                ph = f_.weights.physical
+                with torch.no_grad():
+                    ph.mul_(2.0) if cfg['semiring'] == 'real' else ph.add_(sh)
+            try:
+                with recorded_warnings():
+                    F.sum_products(B.fgg, semiring=S, method='fixed-point', tol=1e-3, kmax=25)
+            except Exception:
+                pass
+            for f_ in B.fgg.factors.values():
+                ph = f_.weights.physical
+                with torch.no_grad():
+                    ph.div_(2.0) if cfg['semiring'] == 'real' else ph.sub_(sh)
+            e.c.inc('hist.prequery-then-inplace-weight-change')
         try:
             with recorded_warnings() as ws:
-                zs = F.sum_products(B.fgg, semiring=S, method=cfg['method'], tol=1e-6 if f32 else 1e-12, kmax=20000,
+                zs = F.sum_products(B.fgg, semiring=S, method=cfg['method'], tol=1e-6 if f32 else 1e-12, kmax=case.get('kmax_eff', 20000),
                                     j_precompute=bool(cfg.get('j_precompute')))
             z = zs[B.fgg.start]
             zd = z.to_dense()
@@ -197,6 +224,8 @@ def execute(case):
     bnd1, rho = jacobian_bound(ref, xstar, None, {n: np.ones(ref.shape[n]) for n in spec['nts']})
     if bnd1 is None or rho > 0.9:
         raise Discard('not well conditioned')
+    case = dict(case)
+    case['kmax_eff'] = (K + 10) if case.get('tight_budget') else 20000
     vref = GR.GrammarRef(spec, 'viterbi')
     vstar, vK, vconv = vref.lfp(3000)
     start = spec['start']
@@ -266,8 +295,10 @@ def execute(case):
             tolr = (1e-6 if f32 else 1e-12)
             eps = 2e-4 if f32 else 1e-9
             if r.get('warned'):
+                # the budget is generous by construction (20000, or the reference's own step count + 10 per component), so a
+                # warning excuses nothing: the value is judged like any other
                 counters['configs.warned'] = counters.get('configs.warned', 0) + 1
-            elif sem == 'real':
+            if sem == 'real':
                 allow = 1.5 * tolr * amp + eps * scale * amp
                 if not np.all(np.abs(got - zstar) <= allow):
                     V('value', feats0, f'{cfg}: Z = {got.tolist()}, reference {zstar.tolist()}, allowed deviation {allow.tolist()}')
